@@ -214,6 +214,17 @@ func GenExpr(r *Rand) Expr {
 		{"error(\"boom\")", "error", false, false},
 		{"select(.a > " + n + ") | error(\"boom at \" + .id)", "error", false, false},
 		{".d[5] = 1", "assign", true, true},
+		// literals of the expression that are updated with document data: the parsed tree must not keep the update
+		{".new = {\"n\": 0} | .new.n += .a", "literal-update", true, true},
+		{".lit = [] | .lit += .d", "literal-update", true, true},
+		{".tags = [\"x\"] | .tags += [.b]", "literal-update", true, true},
+		{".d[] as $x ireduce (0; . += $x)", "literal-update", false, false},
+		{"(.d[5] // 100) | . += .a", "literal-update", false, false},
+		{"{\"sum\": 0} | .sum += 1", "literal-update", false, false},
+		{".e[] as $i ireduce ({\"n\": 0}; .n += $i.v)", "literal-update", false, false},
+		{"[1, 2] | .[0] += 5", "literal-update", false, false},
+		{"\"s\" | . += \"t\"", "literal-update", false, false},
+		{".acc = {\"k\": []} | .acc.k += [.id]", "literal-update", true, true},
 		// relative (|=) forms of the assignable operators
 		{".b style |= \"double\"", "style", true, true},
 		{".c style |= \"flow\"", "style", true, true},
@@ -323,10 +334,14 @@ var ExprThemes = map[string][]string{
 		"to_json", "@json", "tojson", ".c | to_yaml", ".c | @props", ".d | @csv", "[.c] | @csv", ".b | @base64", ".b | @base64 | @base64d", ".c | to_json | from_json", ".c | to_xml", ". | to_yaml | from_yaml | .id", ".c | to_props | from_props",
 		".b | @uri", ".b | @sh", ".c | to_json(0)", ".c | to_yaml(4)", ".d | @tsv", ".c | to_xml | from_xml",
 	},
+	"literals": {
+		".new = {\"n\": 0} | .new.n += .a", ".lit = [] | .lit += .d", ".tags = [\"x\"] | .tags += [.b]", ".d[] as $x ireduce (0; . += $x)", "(.d[5] // 100) | . += .a", "{\"sum\": 0} | .sum += 1",
+		".e[] as $i ireduce ({\"n\": 0}; .n += $i.v)", "[1, 2] | .[0] += 5", "\"s\" | . += \"t\"", ".acc = {\"k\": []} | .acc.k += [.id]", ".a = 5", ".c.new = \"v\"", "{\"k\": .a}", "[.a]",
+	},
 	"variables": {
 		".a as $x | $x + 1", ".d as $d | $d | length", ".a as $x | .d[] | . + $x", ".d[] as $i ireduce (0; . + $i)", ".e[] as $i ireduce ({}; .[$i.k] = $i.v)", ".c.y as $p | .e[] | select(.k == $p)", ".a as $x | .b as $y | [$x, $y]",
 		"with(.c; .x = 1 | .q = 2)", "with(.e[]; .v = .v * 2)", ".c |= with_entries(.key |= \"k_\" + .)", ".c | to_entries | from_entries", ". as $d | $d.a", ".e[] as $x | $x.k",
 	},
 }
 
-var ExprThemeNames = []string{"assignops", "regex", "sort", "encode", "variables"}
+var ExprThemeNames = []string{"assignops", "regex", "sort", "encode", "variables", "literals"}
